@@ -3,6 +3,7 @@
    slicing, reshape, output reductions with axis/keepdims, Lambda, matmul *)
 EXTENDS LensCommon
 Red1(n, axis, keep) == [n |-> n, p |-> <<axis, keep>>]
+Stat1(n, axis, keep, ddof) == [n |-> n, p |-> <<axis, keep, ddof>>]
 IntP(i) == [k |-> "int", i |-> i]
 SlcP(start, step, n) == [k |-> "slice", start |-> start, step |-> step, n |-> n]
 L_Leaves == <<
@@ -11,6 +12,10 @@ L_Leaves == <<
   Iota(<<>>, <<3, 2>>, 0, 2, 1),
   TenI(<<K>>, <<>>, 3, <<2, 0>>),
   TenI(<<I>>, <<>>, 2, <<1, 0>>),
+  \* an operand and an index tensor with the SAME input names in different orders (equal sizes,
+  \* non-symmetric contents)
+  Iota(<<I, K>>, <<3>>, 0, 5, 2),
+  TenI(<<K, I>>, <<>>, 3, <<2, 0, 1, 1>>),
   V("j", BintD(3)),
   N(1, 2), N(2, 3) >>
 L_UnOps == <<
@@ -22,6 +27,8 @@ L_UnOps == <<
   [n |-> "getslice", p |-> <<SlcP(0, 2, 2)>>],
   [n |-> "getslice", p |-> <<SlcP(1, 1, 1), IntP(0)>>],
   [n |-> "getslice", p |-> <<IntP(0), SlcP(1, 1, 2)>>],
+  Stat1("mean", NoAxis, 0, 0), Stat1("mean", -1, 1, 0), Stat1("var", NoAxis, 0, 0), Stat1("var", 0, 0, 1),
+  Stat1("var", -1, 1, 0), Stat1("std", NoAxis, 0, 0), Stat1("std", 0, 1, 0),
   Op0("log") >>
 L_BinOps == <<Op0("matmul"), Op0("add")>>
 L_RedOps == <<>>
